@@ -118,12 +118,12 @@ Definition observe_astate (maxcap : N) (st : astate) : list (list val) :=
   [filter_map (fun e : bytes * client_rec =>
                  if ends_on_disconnect (snd e) then None else Some (val_of_client_rec (session_obs (snd e)))) (as_cl st);
    subs; subs;
-   filter_map (fun e : ifm_key * pkt =>
+   filter_map (fun e : ifm_key * (pkt * N) =>
                  if has_session st (fst (fst e))
-                 then Some (VL [VB (fst (fst e)); val_of_msg_obs (obs_of_pkt maxcap (snd e))]) else None) (as_ifm st);
-   filter_map (fun e : bytes * pkt =>
-                 if is_nil (p_payload (snd e)) then None
-                 else Some (val_of_msg_obs (obs_of_pkt maxcap (retained_view (snd e))))) (as_ret st)].
+                 then Some (VL [VB (fst (fst e)); val_of_msg_obs (obs_of_pkt maxcap (fst (snd e)))]) else None) (as_ifm st);
+   filter_map (fun e : bytes * (bytes * pkt) =>
+                 if is_nil (p_payload (snd (snd e))) then None
+                 else Some (val_of_msg_obs (obs_of_pkt maxcap (retained_view (snd (snd e)))))) (as_ret st)].
 
 Definition observe_rstate (maxcap : N) (rs : rstate) : list (list val) :=
   let subs := map (fun e => VL [VB (fst (fst e)); val_of_subscription (snd e)]) (rs_sub rs) in
